@@ -56,7 +56,7 @@ func (fr *frame) instr(b *ssa.BasicBlock, in ssa.Instruction, reach Term, h Heap
 		switch t := in.X.Type().Underlying().(type) {
 		case *types.Slice:
 			fr.safety(b, "index", in.Pos(), reach, and(app("<=", "0", idx), app("<", idx, xv.ts[2])))
-			fr.vals[in] = x.indexAddr(xv.ts[0], app("+", xv.ts[1], idx), t.Elem())
+			fr.vals[in] = x.indexAddr(xv.ts[0], sidx(xv.ts[1], idx), t.Elem())
 		case *types.Pointer:
 			at := t.Elem().Underlying().(*types.Array)
 			if xv.fp != nil {
@@ -304,6 +304,24 @@ func escapes(a *ssa.Alloc) bool {
 				if walk(r, depth+1) {
 					return true
 				}
+			case *ssa.Slice:
+				// a slice of the allocation that only feeds append/copy or effect-free callees (variadic
+				// argument arrays, logging fields) does not make the allocation visible to other code
+				if r.Referrers() == nil {
+					return true
+				}
+				for _, rr := range *r.Referrers() {
+					switch rr := rr.(type) {
+					case *ssa.DebugRef:
+					case *ssa.Call:
+						n := calleeName(&rr.Call)
+						if !(n == "builtin.append" || n == "builtin.copy" || isEffectFree(n)) {
+							return true
+						}
+					default:
+						return true
+					}
+				}
 			default:
 				return true
 			}
@@ -432,6 +450,15 @@ func (x *Enc) valEq(a, b Val, t types.Type) Term {
 	case *types.Slice:
 		// only comparison with nil is legal
 		return eq(a.ts[0], b.ts[0])
+	case *types.Interface:
+		// nil interface = type tag 0 (payload irrelevant)
+		if a.ts[0] == "0" {
+			return eq(b.ts[0], "0")
+		}
+		if b.ts[0] == "0" {
+			return eq(a.ts[0], "0")
+		}
+		return or(and(eq(a.ts[0], "0"), eq(b.ts[0], "0")), and(eq(a.ts[0], b.ts[0]), eq(a.ts[1], b.ts[1])))
 	}
 	var cs []Term
 	for i := range a.ts {
